@@ -22,7 +22,7 @@ INFO = {
     ],
     "stubs": [],
 }
-BUDGET = {"quick": 240, "thorough": 1100}
+BUDGET = {"quick": 240, "thorough": 800}
 
 SKIP = {"EnvironmentVariable.in"}
 
